@@ -1056,7 +1056,7 @@ for _p in ("C02", "C03"):
                                          "application (state is allocated per subscription, frame.run_local) is checked over all operator and source files.")
 ADDENDA["C37"] = ADDENDA.get("C37", "") + " A tick of generate / generate_with_relative_time calls exactly the user functions one loop step needs, in order."
 ADDENDA["C17"] = ADDENDA.get("C17", "") + " timeout_with_mapper's mapper may be omitted (never() through its callee contract)."
-for _p in ("C28", "C29", "C31", "C33", "C34", "C35"):
+for _p in ("C28", "C29", "C31", "C33", "C34", "C35", "C15", "C16", "C17", "C18", "C37", "C22"):
     ADDENDA[_p] = ADDENDA.get(_p, "") + (" The time conversions every due time goes through (Scheduler.to_seconds / to_timedelta / to_datetime, the contracts of "
                                          "C36) are re-proved inside this check.")
 for _p, _t in ADDENDA.items():
